@@ -10,32 +10,46 @@ import (
 )
 
 // The reference copier works on the case description (not on the source
-// file) and writes the target with Writer.Put only. It is used to test the
-// oracle itself: a correct copy must be accepted on every case of the
-// self-test space, and each deliberate flaw must be reported under the
-// expected fingerprint.
+// file). It is used to test the oracle itself: a correct copy must be
+// accepted on every case of the self-test space, and each deliberate flaw
+// must be reported under the expected fingerprint. It writes either into a
+// memTarget (a table of objects: no code of the library is involved, so the
+// verdict on the oracle does not depend on the library under test) or, for
+// the second part of the self-test, into a file through Writer.Put.
+
+// putter is the part of pdf.Writer the reference copier uses.
+type putter interface {
+	Alloc() pdf.Reference
+	Put(ref pdf.Reference, obj pdf.Object) error
+}
 
 type flaw int
 
 const (
-	flawNone        flaw = iota
-	flawDuplicate        // a shared object is copied once per reference
-	flawMerge            // two different source objects share one target object
-	flawEmptyArray       // [] written as null
-	flawEmptyDict        // <<>> written as null
-	flawDropEntry        // last dictionary entry dropped
-	flawStreamBytes      // first byte of the stream data changed
-	flawNullInArray      // null array elements dropped
-	flawDeadRefKept      // dangling reference copied as a reference to an integer
-	flawIgnoreRedir      // Redirect ignored
-	flawNewRefTwice      // CopyReference allocates a new object on every call
-	flawDirectNullOK     // (not a flaw) dead references become direct nulls
+	flawNone           flaw = iota
+	flawDuplicate           // a shared object is copied once per reference
+	flawMerge               // two different source objects share one target object
+	flawEmptyArray          // [] written as null
+	flawEmptyDict           // <<>> written as null
+	flawDropEntry           // last dictionary entry dropped
+	flawStreamBytes         // first byte of the stream data changed
+	flawNullInArray         // null array elements dropped
+	flawDeadRefKept         // dangling reference copied as a reference to an integer
+	flawIgnoreRedir         // Redirect ignored
+	flawNewRefTwice         // CopyReference allocates a new object on every call
+	flawDirectNullOK        // (not a flaw) dead references become direct nulls
+	flawStaleAliased        // a stale reference (wrong generation) is translated like the live one
+	flawStaleKillsLive      // a stale reference seen first takes the table entry of the live object: the live object is lost
+	flawNestedString        // the string inside a nested direct container is altered
+	flawNestedRef           // the reference inside a nested direct container is not translated (left dangling)
 )
 
 type modelCopier struct {
 	s        *source
-	w        *pdf.Writer
+	w        putter
+	mem      *memTarget // not nil: streams are described as data
 	trans    map[int]pdf.Reference
+	killed   map[int]pdf.Reference // flawStaleKillsLive
 	redirect map[int]pdf.Reference
 	flaw     flaw
 	dups     int
@@ -60,14 +74,46 @@ func (mc *modelCopier) item(it Item, j, p int) pdf.Object {
 			return nil
 		}
 		return pdf.Dict{}
+	case 'm':
+		if mc.flaw == flawNestedString {
+			return pdf.String("garbage")
+		}
+		return nestedStr(j, p)
+	case 'A':
+		return pdf.Array{mc.nestedInner(it, j, p)}
+	case 'T':
+		return pdf.Dict{nestedKey: mc.nestedInner(it, j, p)}
 	}
 	return mc.ref(it)
+}
+
+func (mc *modelCopier) nestedInner(it Item, j, p int) pdf.Object {
+	if it.R >= 0 && mc.flaw == flawNestedRef {
+		return pdf.NewReference(90, 0)
+	}
+	return mc.item(it.inner(), j, p)
 }
 
 func (mc *modelCopier) ref(it Item) pdf.Object {
 	if it.K == 'r' && mc.flaw != flawIgnoreRedir {
 		if f, ok := mc.redirect[it.R]; ok {
 			return f
+		}
+	}
+	if it.K == 'g' && mc.flaw == flawStaleAliased {
+		it = Item{'r', it.R}
+	}
+	if it.K == 'g' && mc.flaw == flawStaleKillsLive {
+		if _, copied := mc.trans[it.R]; !copied {
+			tt := mc.w.Alloc()
+			mc.w.Put(tt, nil)
+			mc.killed[it.R] = tt
+			return tt
+		}
+	}
+	if it.K == 'r' {
+		if tt, dead := mc.killed[it.R]; dead {
+			return tt
 		}
 	}
 	t, _ := mc.s.g.itemTerminal(it)
@@ -152,6 +198,14 @@ func (mc *modelCopier) content(j int) pdf.Object {
 			d["DecodeParms"] = pdf.Dict{"Predictor": pdf.Integer(12), "Columns": pdf.Integer(4)}
 			raw = deflate(pngUp(plain, 4))
 		}
+		if mc.mem != nil {
+			// described as data: the dictionary and the decoded bytes
+			delete(d, "Filter")
+			delete(d, "DecodeParms")
+			stm := &pdf.Stream{Dict: d}
+			mc.mem.data[stm] = plain
+			return stm
+		}
 		return pdf.NewStream(d, raw)
 	case 'r':
 		return mc.ref(o.It[0])
@@ -160,29 +214,44 @@ func (mc *modelCopier) content(j int) pdf.Object {
 }
 
 // modelExecute is execute with the reference copier in place of pdf.Copier.
-func modelExecute(s *source, prog []Op, tgtCfg string, fl flaw) (*execution, error) {
-	v, opt, err := writerFor(tgtCfg)
-	if err != nil {
-		return nil, err
-	}
+// With inMemory the target is a memTarget (no Writer, no file, no Reader);
+// otherwise it is written with the library's Writer under configuration
+// tgtCfg.
+func modelExecute(s *source, prog []Op, tgtCfg string, fl flaw, inMemory bool) (*execution, error) {
+	var w putter
+	var pw *pdf.Writer
+	var mem *memTarget
 	mf := memfile.New()
-	w, err := pdf.NewWriter(mf, v, opt)
-	if err != nil {
-		return nil, err
+	if inMemory {
+		mem = newMemTarget()
+		w = mem
+	} else {
+		v, opt, err := writerFor(tgtCfg)
+		if err != nil {
+			return nil, err
+		}
+		pw, err = pdf.NewWriter(mf, v, opt)
+		if err != nil {
+			return nil, err
+		}
+		w = pw
 	}
-	mc := &modelCopier{s: s, w: w, trans: map[int]pdf.Reference{}, redirect: map[int]pdf.Reference{}, flaw: fl}
-	ex := &execution{}
+	mc := &modelCopier{s: s, w: w, mem: mem, trans: map[int]pdf.Reference{}, redirect: map[int]pdf.Reference{},
+		killed: map[int]pdf.Reference{}, flaw: fl}
+	ex := &execution{mem: mem}
 	nRedirect := 0
 	lastR := map[int]pdf.Reference{}
 	for _, op := range prog {
 		st := step{op: op}
 		switch op.K {
-		case 'R':
+		case 'R', 'G':
 			it := Item{K: 'x'}
-			if op.J >= 0 {
+			if op.K == 'G' {
+				it = Item{'g', op.J}
+			} else if op.J >= 0 {
 				it = Item{'r', op.J}
 			}
-			if prev, ok := lastR[op.J]; ok {
+			if prev, ok := lastR[lastKey(op)]; ok {
 				st.ref = prev
 				if fl == flawNewRefTwice {
 					st.ref = w.Alloc()
@@ -197,7 +266,7 @@ func modelExecute(s *source, prog []Op, tgtCfg string, fl flaw) (*execution, err
 				w.Put(ref, res)
 			}
 			st.ref = ref
-			lastR[op.J] = ref
+			lastR[lastKey(op)] = ref
 		case 'C':
 			st.ref = w.Alloc()
 			if err := w.Put(st.ref, mc.content(op.J)); err != nil {
@@ -212,10 +281,13 @@ func modelExecute(s *source, prog []Op, tgtCfg string, fl flaw) (*execution, err
 		}
 		ex.steps = append(ex.steps, st)
 	}
-	if err := memfile.AddBlankPage(w); err != nil {
+	if inMemory {
+		return ex, nil
+	}
+	if err := memfile.AddBlankPage(pw); err != nil {
 		return nil, err
 	}
-	if err := w.Close(); err != nil {
+	if err := pw.Close(); err != nil {
 		return nil, err
 	}
 	ex.tgt = mf.Data
